@@ -5,7 +5,6 @@ import (
 	"go/ast"
 	"go/token"
 	"go/types"
-	"os"
 	"sort"
 	"strings"
 
@@ -227,12 +226,12 @@ func eq(a, b []string) bool {
 }
 
 // MatchPair compares one generated package with its spec.
-func MatchPair(pk *load.Package, tlaPath string, tabs *scalatab.Tables, fset *token.FileSet, pairName string) []Ob {
+func MatchPair(pk *load.Package, tlaPath string, tabs *scalatab.Tables, fset *token.FileSet, pairName string, read func(string) ([]byte, error)) []Ob {
 	var obs []Ob
 	add := func(key, verdict string, pos token.Pos, format string, args ...any) {
 		obs = append(obs, Ob{Key: pairName + "/" + key, Verdict: verdict, Detail: fmt.Sprintf(format, args...), Pos: pos})
 	}
-	src, err := os.ReadFile(tlaPath)
+	src, err := read(tlaPath)
 	if err != nil {
 		add("spec", "bad", token.NoPos, "cannot read %s: %v", tlaPath, err)
 		return obs
